@@ -84,7 +84,7 @@ def decode_spack(raw: bytes) -> Dict[str, Any]:
     return out
 
 
-def build_command(op: Dict[str, Any], ci: int, facade, spa, res: RunResult, snapshot: str, sync: bool):
+def build_command(op: Dict[str, Any], ci: int, facade, spa, res: RunResult, snapshot: str, sync: bool, model=None):
     """Translate a plan op into (ctx, expect, thunk); thunk() issues the facade command (returns a coroutine in the async world).
     Returns None when the configuration has no such device."""
     from geckolib import GeckoConstants
@@ -113,9 +113,13 @@ def build_command(op: Dict[str, Any], ci: int, facade, spa, res: RunResult, snap
             return None
         s = switches[op["dev"] % len(switches)]
         on = kind == "switch_on"
-        was_on = bool(s.is_on)
-        ctx += f" {s.key} was_on={was_on}"
         props = GeckoConstants.DEVICES[s.key]
+        # the current state is read from the spa's own state item (the network is quiet: the client mirrors it), not from the
+        # library's is_on
+        was_on = _is_on(model.structure.accessors[props[2]]) if model is not None else bool(s.is_on)
+        if was_on != bool(s.is_on):
+            res.probe("is_on_differs_from_spa_state")
+        ctx += f" {s.key} was_on={was_on}"
         if was_on == on:
             expect.update(n=0)
             res.probe(f"{'on' if on else 'off'}_when_already:{type(s).__name__}")
@@ -131,7 +135,7 @@ def build_command(op: Dict[str, Any], ci: int, facade, spa, res: RunResult, snap
         if s is None:
             return None
         on = kind == "eco_on"
-        was_on = bool(s.is_on)
+        was_on = _is_on(model.structure.accessors[GeckoConstants.KEY_ECON_ACTIVE]) if model is not None else bool(s.is_on)
         ctx += f" eco was_on={was_on}"
         if was_on == on:
             expect.update(n=0)
@@ -319,7 +323,7 @@ async def scenario(world: WorldA) -> None:
                 res.probe("gate_closed_at_command")
             unaccounted()
             mark = len(model.commands)
-            built = build_command(op, ci, facade, spa, res, cfg["snapshot"], sync=False)
+            built = build_command(op, ci, facade, spa, res, cfg["snapshot"], sync=False, model=model)
             if built is None:
                 continue
             ctx, expect, thunk = built
